@@ -111,7 +111,10 @@ type c09World struct {
 	v        *verifOut
 	scheme   string
 	n, q     int
-	cfgs     []*core.RuntimeConfig // index id-1, plus the outsider at index n
+	idset    string
+	ids      []uint64              // replica ids: members at index 0..n-1, the outsider at index n
+	startN   int                   // > 0: the collector is created knowing only the first startN members (growth stimulus 'M' adds the rest)
+	cfgs     []*core.RuntimeConfig // index i-1 for member index i, plus the outsider at index n
 	bases    []crypto.Base
 	blocks   map[string]*c09Block
 	byHash   map[hotstuff.Hash]*c09Block
@@ -145,12 +148,39 @@ func c09Key(scheme string) hotstuff.PrivateKey {
 	}
 }
 
-func c09NewWorld(v *verifOut, scheme string, n int) *c09World {
-	w := &c09World{v: v, scheme: scheme, n: n, blocks: map[string]*c09Block{}, byHash: map[hotstuff.Hash]*c09Block{},
+// c09IDs returns the replica ids of an id set: "dense" = 1..n+1; "sparse" = non-contiguous ids that agree in
+// their low 8 and 16 bits and reach the top of uint32 (list schemes); "sparse16" = the same idea below 2^17
+// (BLS bitfields grow with the largest id).
+func c09IDs(idset string, n int) []uint64 {
+	var pool []uint64
+	switch idset {
+	case "sparse":
+		pool = []uint64{3, 259, 65539, 16777219, 2147483651, 4294967043, 515, 131075, 33554435, 771, 4294967295, 1027}
+	case "sparse16":
+		pool = []uint64{3, 259, 515, 65539, 771, 1027, 1283, 66051, 1539, 1795, 2051, 2307}
+	default:
+		for i := 1; i <= n+1; i++ {
+			pool = append(pool, uint64(i))
+		}
+	}
+	return pool[:n+1]
+}
+
+func (w *c09World) isMember(lab uint64) bool {
+	for _, id := range w.ids[:w.n] {
+		if id == lab {
+			return true
+		}
+	}
+	return false
+}
+
+func c09NewWorld(v *verifOut, scheme string, n int, idset string) *c09World {
+	w := &c09World{v: v, scheme: scheme, n: n, idset: idset, ids: c09IDs(idset, n), blocks: map[string]*c09Block{}, byHash: map[hotstuff.Hash]*c09Block{},
 		reg: map[string]c09Real{}, logger: logging.NewWithDest(io.Discard, "c09")}
 	// n members and one outsider (id n+1) who knows everybody but is known to nobody
 	for i := 1; i <= n+1; i++ {
-		w.cfgs = append(w.cfgs, core.NewRuntimeConfig(hotstuff.ID(i), c09Key(scheme), core.WithSyncVerification()))
+		w.cfgs = append(w.cfgs, core.NewRuntimeConfig(hotstuff.ID(w.ids[i-1]), c09Key(scheme), core.WithSyncVerification()))
 	}
 	for _, c := range w.cfgs {
 		b, err := crypto.New(c, scheme) // BLS: adds the proof of possession to the connection metadata
@@ -166,11 +196,7 @@ func c09NewWorld(v *verifOut, scheme string, n int) *c09World {
 		}
 	}
 	w.q = w.cfgs[0].QuorumSize()
-	ms := make([]uint64, n)
-	for i := range ms {
-		ms[i] = uint64(i + 1)
-	}
-	w.members = gNs(ms)
+	w.members = gNs(w.ids[:n])
 	g := hotstuff.GetGenesis()
 	w.addBlock("G", g)
 	mk := func(name string, view uint64, proposer int) {
@@ -226,7 +252,7 @@ func (w *c09World) signRaw(id int, b *c09Block) (hotstuff.QuorumSignature, []byt
 	default:
 		raw = s.ToBytes()
 	}
-	w.reg[string(raw)] = c09Real{uint64(id), b.id}
+	w.reg[string(raw)] = c09Real{w.ids[id-1], b.id}
 	return s, raw
 }
 
@@ -238,7 +264,8 @@ type c09Elem struct {
 
 func (w *c09World) genuine(id int, b *c09Block) c09Elem {
 	_, raw := w.signRaw(id, b)
-	return c09Elem{raw, uint64(id), c09Sig{uint64(id), uint64(id), b.id}}
+	rid := w.ids[id-1]
+	return c09Elem{raw, rid, c09Sig{rid, rid, b.id}}
 }
 func (e c09Elem) relabel(lab uint64) c09Elem {
 	return c09Elem{e.raw, lab, c09Sig{lab, e.sym.signer, e.sym.hash}}
@@ -294,7 +321,7 @@ func (w *c09World) vote(kind string, names *c09Block, elems ...c09Elem) *c09Vote
 		}
 	}
 	x := &c09Vote{kind: kind, pc: hotstuff.NewPartialCert(sig, names.blk.Hash()), hash: names.id, sigs: syms}
-	x.sender = hotstuff.ID(1)
+	x.sender = hotstuff.ID(w.ids[0])
 	if len(syms) > 0 {
 		x.sender = hotstuff.ID(syms[0].lab)
 	}
@@ -318,7 +345,7 @@ func (w *c09World) hostile() []*c09Vote {
 	}
 	hs := []*c09Vote{
 		w.vote("resigned-duplicate", B, w.genuine(min(2, n), B)),
-		w.vote("relabelled", B, w.genuine(last, B).relabel(1)),
+		w.vote("relabelled", B, w.genuine(last, B).relabel(w.ids[0])),
 		w.vote("signature-over-other-block", B, w.genuine(min(3, n), C)),
 		w.vote("foreign-block", C, w.genuine(min(3, n), C)),
 		w.vote("old-block", w.blocks["O"], w.genuine(min(3, n), w.blocks["O"])),
@@ -326,7 +353,7 @@ func (w *c09World) hostile() []*c09Vote {
 		w.vote("unknown-block", w.blocks["U"], w.genuine(min(3, n), w.blocks["U"])),
 		w.vote("fetchable-block", w.blocks["R"], w.genuine(min(3, n), w.blocks["R"])),
 		w.vote("non-member", B, w.genuine(n+1, B)),
-		w.vote("non-member-relabelled", B, w.genuine(n+1, B).relabel(uint64(last))),
+		w.vote("non-member-relabelled", B, w.genuine(n+1, B).relabel(w.ids[last-1])),
 	}
 	if n >= 2 {
 		hs = append(hs,
@@ -337,9 +364,9 @@ func (w *c09World) hostile() []*c09Vote {
 	if w.list() {
 		e := w.genuine(last, B)
 		hs = append(hs,
-			w.vote("garbage", B, w.garbage(uint64(min(2, n)))),
+			w.vote("garbage", B, w.garbage(w.ids[min(2, n)-1])),
 			w.vote("multi-repeated-signer", B, e, e),
-			w.vote("multi-garbage-tail", B, w.genuine(last, B), w.garbage(uint64(other))),
+			w.vote("multi-garbage-tail", B, w.genuine(last, B), w.garbage(w.ids[other-1])),
 			w.vote("empty-signature", B),
 		)
 		if n >= 2 {
@@ -364,6 +391,8 @@ func (e c09Ev) term() string {
 		return fmt.Sprintf("(V %s %s)", gN(uint64(e.vote.hash)), c09SigsTerm(e.vote.sigs))
 	case 'P':
 		return fmt.Sprintf("(P %s %s)", gN(uint64(e.blk.id)), gN(e.blk.view))
+	case 'M':
+		return ""
 	default:
 		return fmt.Sprintf("(H %s %s)", gN(uint64(e.blk.id)), gN(e.blk.view))
 	}
@@ -374,6 +403,8 @@ func (e c09Ev) short() string {
 		return fmt.Sprintf("vote[%s for %d by %s]", e.vote.kind, e.vote.hash, c09SigsTerm(e.vote.sigs))
 	case 'P':
 		return "propose " + e.blk.name
+	case 'M':
+		return "membership grows to the full configuration"
 	default:
 		return "highQC->" + e.blk.name
 	}
@@ -385,6 +416,7 @@ type c09QC struct {
 	sigs     []c09Sig
 	verifies bool
 	err      string
+	raw      hotstuff.QuorumCert
 }
 
 func (q c09QC) term() string {
@@ -403,21 +435,29 @@ type c09Run struct {
 	bc     *blockchain.Blockchain
 	vs     *protocol.ViewStates
 	vm     *VotingMachine
+	cfg    *core.RuntimeConfig
+	grown  int
 	cur    []c09QC
 	ctx    context.Context
 }
 
 func (w *c09World) newRun(sync bool, store0, remote []*c09Block) *c09Run {
 	r := &c09Run{w: w, ctx: context.Background()}
-	cfg := w.cfgs[0]
-	if !sync {
-		// same replica table, asynchronous verification
-		cfg = core.NewRuntimeConfig(1, w.cfgs[0].PrivateKey())
-		for j := 0; j < w.n; j++ {
-			o := w.cfgs[j]
-			cfg.AddReplica(&hotstuff.ReplicaInfo{ID: o.ID(), PubKey: o.PrivateKey().Public(), Metadata: o.ConnectionMetadata()})
-		}
+	// the collector's own configuration: created per run so that its membership can grow during the run
+	var opts []core.RuntimeOption
+	if sync {
+		opts = append(opts, core.WithSyncVerification())
 	}
+	cfg := core.NewRuntimeConfig(hotstuff.ID(w.ids[0]), w.cfgs[0].PrivateKey(), opts...)
+	r.cfg = cfg
+	start := w.n
+	if w.startN > 0 {
+		start = w.startN
+	}
+	for j := 0; j < start; j++ {
+		r.addMember(j)
+	}
+	r.grown = start
 	r.sender = &c09Sender{remote: map[hotstuff.Hash]*hotstuff.Block{}}
 	for _, b := range remote {
 		r.sender.remote[b.blk.Hash()] = b.blk
@@ -427,16 +467,13 @@ func (w *c09World) newRun(sync bool, store0, remote []*c09Block) *c09Run {
 	for _, b := range store0 {
 		r.bc.Store(b.blk)
 	}
-	base := w.bases[0]
-	if !sync && w.scheme == crypto.NameBLS12 {
-		b, err := crypto.New(cfg, w.scheme)
-		if err != nil {
-			panic(err)
-		}
-		base = b
+	base, err := crypto.New(cfg, w.scheme)
+	if err != nil {
+		panic(err)
 	}
 	auth := cert.NewAuthority(cfg, r.bc, base)
-	vs, err := protocol.NewViewStates(r.bc, auth)
+	vs, err2 := protocol.NewViewStates(r.bc, auth)
+	err = err2
 	if err != nil {
 		panic(err)
 	}
@@ -453,7 +490,7 @@ func (w *c09World) newRun(sync bool, store0, remote []*c09Block) *c09Run {
 }
 
 func (w *c09World) decodeQC(qc hotstuff.QuorumCert) c09QC {
-	out := c09QC{view: uint64(qc.View())}
+	out := c09QC{view: uint64(qc.View()), raw: qc}
 	if b, ok := w.byHash[qc.BlockHash()]; ok {
 		out.hash = b.id
 	}
@@ -493,6 +530,11 @@ func (w *c09World) decodeQC(qc hotstuff.QuorumCert) c09QC {
 	return out
 }
 
+func (r *c09Run) addMember(j int) {
+	o := r.w.cfgs[j]
+	r.cfg.AddReplica(&hotstuff.ReplicaInfo{ID: o.ID(), PubKey: o.PrivateKey().Public(), Metadata: o.ConnectionMetadata()})
+}
+
 func (r *c09Run) drain() {
 	for r.el.Tick(r.ctx) {
 	}
@@ -504,6 +546,11 @@ func (r *c09Run) deliver(e c09Ev) {
 		r.el.AddEvent(hotstuff.VoteMsg{ID: e.vote.sender, PartialCert: e.vote.pc})
 	case 'P':
 		r.el.AddEvent(hotstuff.ProposeMsg{ID: e.blk.blk.Proposer(), Block: e.blk.blk})
+	case 'M': // the remaining members join the configuration (RuntimeConfig.AddReplica after the collector was created)
+		for j := r.grown; j < r.w.n; j++ {
+			r.addMember(j)
+		}
+		r.grown = r.w.n
 	default:
 		r.bc.Store(e.blk.blk)
 		_, _ = r.vs.UpdateHighQC(hotstuff.NewQuorumCert(nil, e.blk.blk.View(), e.blk.blk.Hash()))
@@ -589,7 +636,7 @@ func (w *c09World) checkQC(q c09QC, input any) {
 			good, why = false, fmt.Sprintf("signer %d twice", s.lab)
 		}
 		seen[s.lab] = true
-		if s.lab < 1 || s.lab > uint64(w.n) {
+		if !w.isMember(s.lab) {
 			good, why = false, fmt.Sprintf("signer %d is not a member", s.lab)
 		}
 		if s.signer != s.lab || s.hash != q.hash {
@@ -610,7 +657,7 @@ func (x *c09Vote) fullyValid(w *c09World) bool {
 		return false
 	}
 	for _, s := range x.sigs {
-		if s.signer != s.lab || s.hash != x.hash || s.lab < 1 || s.lab > uint64(w.n) {
+		if s.signer != s.lab || s.hash != x.hash || !w.isMember(s.lab) {
 			return false
 		}
 	}
@@ -620,30 +667,44 @@ func (x *c09Vote) fullyValid(w *c09World) bool {
 // exactness evaluates "a QC for B exists by stimulus k iff B is known and a quorum of valid votes has
 // arrived by k" on the observed per-stimulus outputs. lower = distinct signers of valid single-signer
 // votes; upper = distinct members with a genuine signature inside any fully verifying vote.
-func (w *c09World) exactness(store0 []*c09Block, evs []c09Ev, outs [][]c09QC, input func() any) {
+func (w *c09World) exactness(store0, remote []*c09Block, evs []c09Ev, outs [][]c09QC, input func() any) {
 	B := w.blocks["B"]
-	known := false
+	known, fetchable := false, false
 	for _, b := range store0 {
 		if b == B {
 			known = true
 		}
 	}
+	for _, b := range remote {
+		if b == B {
+			fetchable = true
+		}
+	}
+	waiting := false // a vote naming B (valid or not) is delayed until the next proposal
 	lower, upper := map[uint64]bool{}, map[uint64]bool{}
 	emitted := false
 	for k, e := range evs {
 		switch e.kind {
 		case 'P':
-			if !known && e.blk != B {
-				return // a foreign proposal while B is unknown: delayed votes depend on the fetch; outside the claim
+			if !known && e.blk != B && waiting {
+				// a foreign proposal releases the delayed votes: they are retried through the fetch
+				if !fetchable {
+					return // the delayed votes for B are lost with the failed fetch: outside the claim
+				}
+				known = true
 			}
 			if e.blk == B {
 				known = true
 			}
+			waiting = false
 		case 'H':
 			if e.blk.view >= B.view {
 				return // B is no longer newer than the high QC
 			}
 		case 'V':
+			if e.vote.hash == B.id && !known {
+				waiting = true
+			}
 			if e.vote.hash == B.id && e.vote.fullyValid(w) {
 				for _, s := range e.vote.sigs {
 					upper[s.lab] = true
@@ -709,17 +770,33 @@ func (w *c09World) syncCase(s *verifStream, stream string, store0, remote []*c09
 		outT[i] = c09QCsTerm(o)
 		nqc += len(o)
 	}
+	// the kernel sees the stimuli without the membership growth (the model's membership is the final one)
+	var kEv, kOut []string
+	for i, e := range evs {
+		if e.kind == 'M' {
+			continue
+		}
+		kEv = append(kEv, evT[i])
+		if i < len(outT) {
+			kOut = append(kOut, outT[i])
+		}
+	}
 	meta := func() any {
 		return map[string]any{"stream": stream, "scheme": w.scheme, "n": w.n, "quorum": w.q, "verification": "sync",
+			"replica_ids": w.ids[:w.n], "created_with_members": w.startN,
 			"initial_blocks": c09Names(store0), "fetchable": c09Names(remote), "stimuli": evS,
 			"certificates_per_stimulus": outT, "final_verifiedVotes": c09BucketsTerm(bk), "delayed": nd, "panic": panicked}
 	}
-	key := fmt.Sprintf("S|%s|%d|%s|%s|%s", w.scheme, w.n, c09BlocksTerm(store0), c09BlocksTerm(remote), strings.Join(evT, ";"))
+	key := fmt.Sprintf("S|%s|%d|%s|%d|%s", w.scheme, w.n, w.idset, w.startN, c09BlocksTerm(store0), c09BlocksTerm(remote), strings.Join(evT, ";"))
 	w.v.Seen(key, nqc > 0 || len(kinds) > 2, meta())
 	for k := range kinds {
 		w.v.Count("vote-kind:" + k)
 	}
 	w.v.Count(fmt.Sprintf("sync:%s:n=%d", w.scheme, w.n))
+	w.v.Count("ids:" + w.idset)
+	if w.startN > 0 {
+		w.v.Count("membership-growth")
+	}
 	w.v.Count(fmt.Sprintf("certificates=%d", nqc))
 	if panicked != "" {
 		w.v.Oracle(false, "votingmachine.collect:panic", "panic while handling a stimulus: "+panicked, meta())
@@ -728,11 +805,15 @@ func (w *c09World) syncCase(s *verifStream, stream string, store0, remote []*c09
 	for _, o := range outs {
 		for _, q := range o {
 			w.checkQC(q, meta())
+			// the certificate object handed out must not change under later stimuli (shared backing arrays)
+			if again := w.decodeQC(q.raw); again.term() != q.term() {
+				w.v.Oracle(false, "votingmachine.qc:changed-after-emission", "an emitted QC reads differently at the end of the run: "+again.term()+" vs "+q.term(), meta())
+			}
 		}
 	}
-	w.exactness(store0, evs, outs, meta)
+	w.exactness(store0, remote, evs, outs, meta)
 	w.v.Case(s, fmt.Sprintf("(%s, %s, %s, %s, %s, %s, %s)", w.members, c09BlocksTerm(remote), c09BlocksTerm(store0),
-		gList(evT), gList(outT), c09BucketsTerm(bk), gNat(nd)), meta())
+		gList(kEv), gList(kOut), c09BucketsTerm(bk), gNat(nd)), meta())
 }
 
 func c09Names(bs []*c09Block) []string {
@@ -748,15 +829,33 @@ func c09Names(bs []*c09Block) []string {
 // goroutines; after quiescence the emitted certificates and the final state are explained by an order
 // of the critical sections (witness), which the kernel replays on the sequential model.
 
-func (w *c09World) asyncCase(s *verifStream, store0, remote []*c09Block, setup []c09Ev, burst []*c09Vote) {
+// latePos >= 0: block B is unknown at the start and its proposal is queued before burst[latePos] (the kernel sees
+// the proposal as the last setup stimulus: with only B-naming and known-block votes in the burst the two are the
+// same up to the order of the critical sections). eager: the loop is ticked while the burst is still being queued.
+func (w *c09World) asyncCase(s *verifStream, store0, remote []*c09Block, setup []c09Ev, burst []*c09Vote, latePos int, eager bool) {
 	r := w.newRun(false, store0, remote)
 	for _, e := range setup {
 		r.step(e)
 	}
 	base := runtime.NumGoroutine()
 	r.cur = nil
-	for _, x := range burst {
+	for i, x := range burst {
+		if i == latePos {
+			r.el.AddEvent(hotstuff.ProposeMsg{ID: w.blocks["B"].blk.Proposer(), Block: w.blocks["B"].blk})
+		}
 		r.el.AddEvent(hotstuff.VoteMsg{ID: x.sender, PartialCert: x.pc})
+		if eager {
+			r.el.Tick(r.ctx)
+			if i%3 == 2 {
+				runtime.Gosched()
+			}
+		}
+	}
+	if latePos == len(burst) {
+		r.el.AddEvent(hotstuff.ProposeMsg{ID: w.blocks["B"].blk.Proposer(), Block: w.blocks["B"].blk})
+	}
+	if latePos >= 0 {
+		setup = append(append([]c09Ev{}, setup...), c09Ev{kind: 'P', blk: w.blocks["B"]})
 	}
 	quiet := 0
 	deadline := time.Now().Add(20 * time.Second)
@@ -858,9 +957,14 @@ func (w *c09World) asyncCase(s *verifStream, store0, remote []*c09Block, setup [
 	}
 	meta := map[string]any{"stream": "async", "scheme": w.scheme, "n": w.n, "quorum": w.q, "verification": "async",
 		"initial_blocks": c09Names(store0), "setup": setS, "burst": burstS, "certificates": c09QCsTerm(qcs),
-		"final_verifiedVotes": c09BucketsTerm(bk), "delayed": nd, "explained": explain}
+		"final_verifiedVotes": c09BucketsTerm(bk), "delayed": nd, "explained": explain,
+		"replica_ids": w.ids[:w.n], "block_proposal_queued_before_burst_index": latePos, "loop_ticked_while_queueing": eager}
 	w.v.Seen("A|"+w.scheme+fmt.Sprint(w.n)+"|"+strings.Join(setT, ";")+"|"+burstT, true, meta)
 	w.v.Count(fmt.Sprintf("async:%s:n=%d", w.scheme, w.n))
+	w.v.Count("ids:" + w.idset)
+	if latePos >= 0 {
+		w.v.Count("async-block-arrives-mid-burst")
+	}
 	w.v.Count(fmt.Sprintf("async-certificates=%d", len(qcs)))
 	for _, q := range qcs {
 		w.checkQC(q, meta)
@@ -948,16 +1052,28 @@ func TestVerifC09(t *testing.T) {
 	type worldKey struct {
 		scheme string
 		n      int
+		idset  string
 	}
 	worlds := map[worldKey]*c09World{}
-	world := func(scheme string, n int) *c09World {
-		k := worldKey{scheme, n}
+	worldIDs := func(scheme string, n int, idset string) *c09World {
+		k := worldKey{scheme, n, idset}
 		if w, ok := worlds[k]; ok {
 			return w
 		}
-		w := c09NewWorld(v, scheme, n)
+		w := c09NewWorld(v, scheme, n, idset)
 		worlds[k] = w
 		return w
+	}
+	world := func(scheme string, n int) *c09World { return worldIDs(scheme, n, "dense") }
+	// random choice of the id set: contiguous small ids, or non-contiguous ids up to the top of uint32
+	anyWorld := func(scheme string, n int) *c09World {
+		if v.rng.Intn(2) == 0 {
+			return world(scheme, n)
+		}
+		if scheme == crypto.NameBLS12 {
+			return worldIDs(scheme, n, "sparse16")
+		}
+		return worldIDs(scheme, n, "sparse")
 	}
 	V := func(x *c09Vote) c09Ev { return c09Ev{kind: 'V', vote: x} }
 	P := func(b *c09Block) c09Ev { return c09Ev{kind: 'P', blk: b} }
@@ -986,7 +1102,7 @@ func TestVerifC09(t *testing.T) {
 			}
 			hx := hv
 			if hi == 0 {
-				hx = &c09Vote{kind: "exact-duplicate", pc: hv.pc, hash: hv.hash, sigs: hv.sigs, sender: hotstuff.ID(n)} // relayed by somebody else
+				hx = &c09Vote{kind: "exact-duplicate", pc: hv.pc, hash: hv.hash, sigs: hv.sigs, sender: hotstuff.ID(w.ids[n-1])} // relayed by somebody else
 			}
 			items = append(items, V(hx))
 			cnt := 0
@@ -1027,6 +1143,63 @@ func TestVerifC09(t *testing.T) {
 		}
 	}
 
+	// (a2) the same with non-contiguous replica ids that agree in their low 8 / 16 bits and reach 2^32-1
+	{
+		n := 4
+		w := worldIDs(crypto.NameECDSA, n, "sparse")
+		B := w.blocks["B"]
+		base := []*c09Block{w.blocks["G"], w.blocks["B"], w.blocks["C"], w.blocks["O"], w.blocks["L3"]}
+		var hon []*c09Vote
+		for i := 1; i <= n; i++ {
+			hon = append(hon, w.honest(i, B))
+		}
+		pick := map[string]bool{"resigned-duplicate": true, "relabelled": true, "non-member-relabelled": true,
+			"multi-two-signers": true, "garbage": true, "foreign-block": true}
+		for _, hv := range w.hostile() {
+			if !pick[hv.kind] {
+				continue
+			}
+			items := []c09Ev{V(hon[0]), V(hon[1]), V(hon[2]), V(hon[3]), V(hv)}
+			c09Perms(len(items), func(p []int) {
+				evs := []c09Ev{Hi(w.blocks["L3"])}
+				for _, i := range p {
+					evs = append(evs, items[i])
+				}
+				w.syncCase(sPerm, "perm-sparse-ids", base, []*c09Block{w.blocks["R"]}, evs)
+			})
+		}
+	}
+
+	// (a3) the fetch path: the block is not known locally but other replicas have it; votes wait for it, a
+	// foreign proposal is handled first (the delayed votes are retried through the fetch), in all orders
+	{
+		n := 4
+		w := world(crypto.NameECDSA, n)
+		B, D := w.blocks["B"], w.blocks["D"]
+		noB := []*c09Block{w.blocks["G"], w.blocks["C"], w.blocks["O"], w.blocks["L3"]}
+		remote := []*c09Block{w.blocks["R"], B}
+		hon := []*c09Vote{w.honest(1, B), w.honest(2, B), w.honest(3, B)}
+		pick := map[string]bool{"resigned-duplicate": true, "signature-over-other-block": true, "unknown-block": true,
+			"fetchable-block": true, "multi-two-signers": true, "garbage": true}
+		var extra []c09Ev
+		for _, hv := range w.hostile() {
+			if pick[hv.kind] {
+				extra = append(extra, V(hv))
+			}
+		}
+		extra = append(extra, P(B), P(w.blocks["C"]))
+		for _, x := range extra {
+			items := []c09Ev{V(hon[0]), V(hon[1]), V(hon[2]), P(D), x}
+			c09Perms(len(items), func(p []int) {
+				evs := []c09Ev{Hi(w.blocks["L3"])}
+				for _, i := range p {
+					evs = append(evs, items[i])
+				}
+				w.syncCase(sPerm, "perm-fetch", noB, remote, evs)
+			})
+		}
+	}
+
 	// (b) seeded random stream: every scheme, n in {4,7}, several hostile votes, duplicates after the
 	// certificate, foreign proposals, fetches, high-QC moves below and above the block
 	schemes := []string{crypto.NameECDSA, crypto.NameEDDSA, crypto.NameBLS12}
@@ -1043,7 +1216,7 @@ func TestVerifC09(t *testing.T) {
 		if scheme == crypto.NameBLS12 {
 			n = []int{4, 7}[v.rng.Intn(2)]
 		}
-		w := world(scheme, n)
+		w := anyWorld(scheme, n)
 		B := w.blocks["B"]
 		store0 := []*c09Block{w.blocks["G"], w.blocks["O"]}
 		haveB := v.rng.Intn(2) == 0
@@ -1071,7 +1244,7 @@ func TestVerifC09(t *testing.T) {
 		for _, i := range ids[:k] {
 			x := w.honest(i+1, B)
 			if v.rng.Intn(2) == 0 {
-				x.sender = hotstuff.ID(1 + v.rng.Intn(n)) // relayed: the sender id is not the signer
+				x.sender = hotstuff.ID(w.ids[v.rng.Intn(n)]) // relayed: the sender id is not the signer
 			}
 			pool = append(pool, V(x))
 			if v.rng.Intn(4) == 0 {
@@ -1104,6 +1277,74 @@ func TestVerifC09(t *testing.T) {
 			}
 		}
 		w.syncCase(sRand, "random", store0, remote, evs)
+	}
+
+	// (b2) membership growth: the collector (VotingMachine, Authority, crypto base) is created while the
+	// configuration knows only the first four replicas; a few votes arrive (never an old quorum), then the
+	// other replicas are added with RuntimeConfig.AddReplica, then the rest. The model's membership is
+	// the final one: thresholds and membership tests must be read at the time of use.
+	nGrow := pick(300, 3000)
+	for it := 0; it < nGrow; it++ {
+		scheme := schemes[0]
+		switch x := v.rng.Intn(20); {
+		case x < 5:
+			scheme = schemes[1]
+		case x < 6:
+			scheme = schemes[2]
+		}
+		n := 7
+		if scheme != crypto.NameBLS12 && v.rng.Intn(3) == 0 {
+			n = 10
+		}
+		w := anyWorld(scheme, n)
+		B := w.blocks["B"]
+		store0 := []*c09Block{w.blocks["G"], w.blocks["O"], w.blocks["C"]}
+		haveB := v.rng.Intn(3) > 0
+		if haveB {
+			store0 = append(store0, B)
+		}
+		var hs []*c09Vote
+		allHostile := w.hostile()
+		for _, h := range allHostile {
+			if h.kind != "resigned-duplicate" {
+				hs = append(hs, h)
+			}
+		}
+		evs := []c09Ev{Hi(w.blocks["L3"])}
+		// before the growth: at most two distinct valid voters (the old quorum is three)
+		old := v.rng.Perm(4)[:v.rng.Intn(3)]
+		var pre []c09Ev
+		for _, i := range old {
+			pre = append(pre, V(w.honest(i+1, B)))
+			if v.rng.Intn(3) == 0 {
+				pre = append(pre, V(w.honest(i+1, B)))
+			}
+		}
+		for j := v.rng.Intn(3); j > 0; j-- {
+			pre = append(pre, V(hs[v.rng.Intn(len(hs))]))
+		}
+		v.rng.Shuffle(len(pre), func(i, j int) { pre[i], pre[j] = pre[j], pre[i] })
+		evs = append(evs, pre...)
+		evs = append(evs, c09Ev{kind: 'M'})
+		k := w.q + v.rng.Intn(n-w.q+1)
+		if v.rng.Intn(4) == 0 {
+			k = w.q - 1 // one short of the new quorum (but at least the old one)
+		}
+		var pool []c09Ev
+		for _, i := range v.rng.Perm(n)[:k] {
+			pool = append(pool, V(w.honest(i+1, B)))
+		}
+		for j := v.rng.Intn(3); j > 0; j-- {
+			pool = append(pool, V(allHostile[v.rng.Intn(len(allHostile))]))
+		}
+		if !haveB {
+			pool = append(pool, P(B))
+		}
+		v.rng.Shuffle(len(pool), func(i, j int) { pool[i], pool[j] = pool[j], pool[i] })
+		evs = append(evs, pool...)
+		w.startN = 4
+		w.syncCase(sRand, "membership-growth", store0, []*c09Block{w.blocks["R"]}, evs)
+		w.startN = 0
 	}
 
 	// (c) boundary / malformed stream
@@ -1152,11 +1393,24 @@ func TestVerifC09(t *testing.T) {
 	for it := 0; it < nAsync; it++ {
 		scheme := schemes[v.rng.Intn(2)]
 		n := []int{4, 7}[v.rng.Intn(2)]
-		w := world(scheme, n)
+		w := anyWorld(scheme, n)
 		B := w.blocks["B"]
 		store0 := []*c09Block{w.blocks["G"], B, w.blocks["C"], w.blocks["O"]}
 		setup := []c09Ev{Hi(w.blocks["L3"])}
 		hs := w.hostile()
+		// every third burst: the block itself arrives in the middle of the burst (votes before it are delayed
+		// and released together, then verified concurrently with the ones that follow)
+		late := v.rng.Intn(3) == 0
+		if late {
+			store0 = []*c09Block{w.blocks["G"], w.blocks["C"], w.blocks["O"]}
+			var keep []*c09Vote
+			for _, h := range hs {
+				if h.kind != "unknown-block" && h.kind != "fetchable-block" {
+					keep = append(keep, h)
+				}
+			}
+			hs = keep
+		}
 		var burst []*c09Vote
 		k := w.q + v.rng.Intn(n-w.q+1)
 		if v.rng.Intn(6) == 0 {
@@ -1178,7 +1432,11 @@ func TestVerifC09(t *testing.T) {
 			}
 		}
 		v.rng.Shuffle(len(burst), func(i, j int) { burst[i], burst[j] = burst[j], burst[i] })
-		w.asyncCase(sAsync, store0, []*c09Block{w.blocks["R"]}, setup, burst)
+		latePos := -1
+		if late {
+			latePos = v.rng.Intn(len(burst) + 1)
+		}
+		w.asyncCase(sAsync, store0, []*c09Block{w.blocks["R"]}, setup, burst, latePos, v.rng.Intn(2) == 0)
 	}
 
 	v.Close("one evaluation = one stimulus sequence run on a real VotingMachine (event loop drained after every stimulus; or one asynchronous burst); non-trivial = a certificate was emitted or at least three different kinds of stimuli/hostile votes occur")
